@@ -447,6 +447,26 @@ def target_learning(run, rid, states=TARGET_STATES):
                    message='Stream.update[%s] with target_host None leaves the target unset (streams first seen in this state keep target (None, 0))' % S)
 
 
+def r07_7(run):
+    """each stream with its latest source address: whenever the event carries SOURCE_ADDR, both parts are recorded - for every
+    form of the value ("(Tor_internal):0" included), so on every path from the "SOURCE_ADDR in kw" test to the end of update()"""
+    up = run.idx.find_method(stream_cls(run), 'update')
+    g = cfg_of(up)
+    tests = [t for t in g.live if t.kind == 'test' and isinstance(t.ast, ast.Compare) and len(t.ast.ops) == 1 and isinstance(t.ast.ops[0], (ast.In, ast.NotIn))
+             and const(t.ast.left) == 'SOURCE_ADDR']
+    run.floor('R07.7', 'tests for a SOURCE_ADDR keyword in Stream.update', len(tests), 1)
+    for t in tests:
+        lab = 'T' if isinstance(t.ast.ops[0], ast.In) else 'F'
+        start = [s_ for l_, s_ in t.succ if l_ == lab]
+        for field in ('self.source_addr', 'self.source_port'):
+            ws = [n for n in g.real_nodes() if n.kind == 'stmt' and assign_to(n.ast, field) is not None]
+            r = g.reachable(start, avoid=lambda n: n in ws, follow_exc=False)
+            esc = [e for e in g.normal_exits() if e in r]
+            run.ob('R07.7', up, t.ast, 'an event with SOURCE_ADDR always records %s' % field, bool(ws) and not esc, slot='source:%s' % field,
+                   message='Stream.update can finish an event that carries SOURCE_ADDR without assigning %s (some form of the value - e.g. "(Tor_internal):0" - '
+                           'keeps the old / initial value)' % field)
+
+
 def r07_4(run):
     for ci, name in ((circuit_cls(run), 'Circuit'), (stream_cls(run), 'Stream')):
         up = run.idx.find_method(ci, 'update')
@@ -555,6 +575,7 @@ RULES = [
     ('R07.6', 'bootstrap: circuit-status and stream-status snapshots fetched, loaded through the event update functions, events subscribed', r07_6),
     ('R07.5', 'totality: helpers called by circuit_closed/circuit_failed before the removal cannot raise (KeyError behind handler or membership test, str-method arity)', r07_5),
     ('R07.2', 'abstract interpretation of Stream.update over (circuit None/Some, listed/unlisted) x every stream state x both invariant states, normal and exceptional exits; who-writes', r07_2),
+    ('R07.7', 'must-assign: an event with SOURCE_ADDR records source address and port on every path', r07_7),
     ('R07.4', 'status/flags assigned unconditionally from the event; circuit path cleared/recomputed/kept per state', r07_4),
 ]
 
